@@ -119,6 +119,28 @@ def targeted(rng, text):
             out.append(("<!DOCTYPE %s [<!ATTLIST %s zq CDATA '&zz;'><!ENTITY zz 'v'>]>" % (root, root) + text, "entity-declared-after-default"))
             out.append(("<!DOCTYPE %s [<!ATTLIST %s zq CDATA #FIXED 'a&zz;'><!ENTITY zz 'v'>]>" % (root, root) + text, "entity-declared-after-default"))
             out.append(("<!DOCTYPE %s [<!ENTITY za '&zz;'><!ATTLIST %s zq CDATA '&za;'><!ENTITY zz 'v'>]>" % (root, root) + text, "entity-declared-after-default"))
+    # white space of markup is #x20 #x9 #xD #xA and nothing else: a character that only Unicode calls white space, next to the `=`
+    # of an attribute or pseudo-attribute, between attributes, before `>` (round-9 seed C02-N read Eq with str::trim_start)
+    UWS = ["\u00a0", "\u3000", "\u2028", "\u0085", "\u000b", "\u000c", "\u2003", "\u1680"]
+    eqs = [m for m in re.finditer(r"\s[A-Za-z_][\w.\-:]*(=)[\"']", text)]
+    for m in rng.sample(eqs, min(2, len(eqs))):
+        u = rng.choice(UWS)
+        out.append((text[:m.start(1)] + u + text[m.start(1):], "unicode-space-before-eq"))
+        out.append((text[:m.end(1)] + u + text[m.end(1):], "unicode-space-after-eq"))
+        out.append((text[:m.start()] + u + text[m.start() + 1:], "unicode-space-between-attributes"))
+    m = re.search(r"<[A-Za-z_][\w.\-:]*()\s*/?>", text)
+    if m:
+        out.append((text[:m.start(1)] + rng.choice(UWS) + text[m.start(1):], "unicode-space-in-tag"))
+    # an attribute defined a SECOND time (in the same declaration or in a later one) is not binding - but its default is still
+    # checked like any other (round-9 seed C02-M skipped the later definition unread)
+    if "<!DOCTYPE" not in text and not text.startswith("<?xml"):
+        m = re.match(r"\s*<([A-Za-z_][\w.\-:]*)", text)
+        if m:
+            root = m.group(1)
+            for bad in ("&zz;", "&#0;", "&#xFFFF;", "a<b", "&#2;"):
+                out.append(("<!DOCTYPE %s [<!ATTLIST %s zq CDATA 'v' zq CDATA '%s'>]>" % (root, root, bad) + text, "second-definition-bad-default"))
+            out.append(("<!DOCTYPE %s [<!ATTLIST %s zq CDATA 'v'><!ATTLIST %s zq CDATA '&zz;'>]>" % (root, root, root) + text, "second-definition-bad-default"))
+            out.append(("<!DOCTYPE %s [<!ENTITY ze 'v'><!ENTITY ze '&zz;'>]>" % root + text[:m.end()] + " zq='&ze;'" + text[m.end():], "second-entity-declaration"))
     # unclosed / overlapping
     m = re.search(r"</[^>]*>\s*$", text)
     if m:
